@@ -12,441 +12,42 @@ Definition show_fres (r : fres) : string :=
   end.
 Definition check (rs : list rune) : string := digest (show_fres (format_res rs)).
 Definition full (rs : list rune) : string := show_fres (format_res rs).
-Eval vm_compute in ("<<<M1437>>>" ++ full (runes_of_ascii "
+Eval vm_compute in ("<<<M17>>>" ++ full (runes_of_ascii "
+")).
+Eval vm_compute in ("<<<M39>>>" ++ full (runes_of_ascii "
+")).
+Eval vm_compute in ("<<<M115>>>" ++ full (runes_of_ascii "
 
-  // 50% %s
+")).
+Eval vm_compute in ("<<<M159>>>" ++ full (runes_of_ascii "  
+")).
+Eval vm_compute in ("<<<M160>>>" ++ full (@nil rune)).
+Eval vm_compute in ("<<<M170>>>" ++ full (runes_of_ascii " 	 ")).
+Eval vm_compute in ("<<<M240>>>" ++ full (runes_of_ascii "/// triple
 
-  packet
-	crc{ char[65535 ]
-    Foo`" ++ [233]%N ++ runes_of_ascii "`	, calculatedFrom Header ,
-stringy
-MetaDataX  , @lengthOf(
+")).
+Eval vm_compute in ("<<<M289>>>" ++ full (runes_of_ascii "// `tick` ""quote"" 'q'
+
+")).
+Eval vm_compute in ("<<<M310>>>" ++ full (runes_of_ascii "
 //
-    BodyLength ) 
-lengthOf
-	{  f32
-	u
+")).
+Eval vm_compute in ("<<<M331>>>" ++ full (runes_of_ascii "
+ // `tick` ""quote"" 'q'")).
+Eval vm_compute in ("<<<M367>>>" ++ full (runes_of_ascii "
+ // @lengthOf(")).
+Eval vm_compute in ("<<<M723>>>" ++ full (runes_of_ascii " ")).
+Eval vm_compute in ("<<<M724>>>" ++ full (runes_of_ascii "
+	 ")).
+Eval vm_compute in ("<<<M725>>>" ++ full (runes_of_ascii "")).
+Eval vm_compute in ("<<<M726>>>" ++ full (runes_of_ascii "		")).
+Eval vm_compute in ("<<<M727>>>" ++ full (runes_of_ascii "// only a comment")).
+Eval vm_compute in ("<<<M728>>>" ++ full (runes_of_ascii "//")).
+Eval vm_compute in ("<<<M730>>>" ++ full (runes_of_ascii "// a
+// b
+")).
+Eval vm_compute in ("<<<M731>>>" ++ full (runes_of_ascii "
 
-`100% of %d`  ,
-
-T
-@lengthOf(
-	leftPad)
-	,  f32
-// 50% %s
-	  f32a `it's`	, zchar[  255
-]  crc
-    ,  }
-,
-Pad
-@calculatedFrom(
-	""abc"") , @lengthOf(
-repeatCount
-
-) @rightPad
-
-    (	) 
-@tag( 
-1 // trailing space 
-	  )//	t
-  char[7
-]
-
-MetaDataX @calculatedFrom(
-
-""\n"" )	,
-	repeat
-
-    uint64
-pack,
-	@calculatedFrom(	""CRC32"")repeat
-    x_y_z  msg_type
-    `say ""hi""` 
-,
-	}
 
 ")).
-Eval vm_compute in ("<<<M1462>>>" ++ full (runes_of_ascii "
-// c
-
-packet
-	BodyLength
-	{
-@tag(
-42 )Header	tag	`u8 x,`
-    ,
-
-    }	options{  }
-
-packet 
-string_
-	{	float32
-rootA , uint8
-
-MetaDataX	`crlf
-line`
-
-    , charz
-    // " ++ [128512]%N ++ runes_of_ascii " emoji
-, @tag(
-4294967296
-	)
-    @rightPad	(
-
-'\x00')
-
-@tag(
-
-    7
-)
-
-    // c
-u32	u128 	 //x
-  @calculatedFrom(
-
-    ""\" ++ [233]%N ++ runes_of_ascii """),}
-")).
-Eval vm_compute in ("<<<M1485>>>" ++ full (runes_of_ascii "
-// c" ++ [12288]%N ++ runes_of_ascii "
-
-	packet A
-	{  }
-
-")).
-Eval vm_compute in ("<<<M1490>>>" ++ full (runes_of_ascii "  // c" ++ [8287]%N ++ runes_of_ascii "
-
-  packet
-
-    A {
-}
-")).
-Eval vm_compute in ("<<<M1694>>>" ++ full (runes_of_ascii "
-// top
-
-options  // c0
-	{// c1
-
-  A // c2
-    =// c3
-  ""// no comment""	// c4
-    }	// c5
-")).
-Eval vm_compute in ("<<<M1796>>>" ++ full (runes_of_ascii "// top
-
-	packet 	 // c0
-      B 	 // c1
-      {  
-      // c2
-  u8	a	// c4
-
-  ,
-    // c5
-    } // c6a
-    // c6b
-	root 
-  // c7
-  packet  // c8a
-	// c8b
-  P  // c9a
-	// c9b
-    {
-	u8 K // c12a
-  // c12b
-, // c13
-    u64 // c14a
-  // c14b
-    L	// c15
-
-@lengthOf(	// c16
-		Body	// c17
-)  // c18
-	, match// c20a
-  // c20b
-    K // c21
-as	// c22
-  Body
-{  // c24a
-    	// c24b
-  1	// c25a
-
-// c25b
-      :  // c26
-B
-, // c28a
-	// c28b
-	}  ,	// c30a
-    	// c30b
-	}  // c31a
-// c31b
-")).
-Eval vm_compute in ("<<<M1891>>>" ++ full (runes_of_ascii "/// triple
-
-  packet  falsey{ }packet
-	Logon
-
-    {
-@tag(// @lengthOf(
-
-	1	) // c
-	body
-
-a1
-    ,
-	repeat
-
-    BodyLength ,repeat 
-Foo
-{ 
-match	rootA	as x	{[ 
-3 
-] 
-: 
-//
-	  i8i8 },
-    match
-    charz 
-as  // a // b
-  charz
-
-    {  007
-	: 
-Packet ,	[ ""// no comment""
-	] 	 // trailing space 
-
-:	/// triple
-
-  A,
-[
-
-    10]:  float
-	,
-
-    [	""`tick`"" ,  10]:
-    int
-
-    ,
-
-    } 
-, }
-
-    ,  // " ++ [27880; 37322]%N ++ runes_of_ascii "
-
-	repeat
-
-    u8x
-,asx
-
-    { int32
-    Packet
-	@calculatedFrom( 
-
-// 50% %s
-// a // b
-  ""// no comment"")
-, }
-	,
-    @lengthOf(
-leftPad )	int8
-	float 
-	    //
-
-  // @lengthOf(
-  	@calculatedFrom(  ""CRC32"" )
-
-    ,
-    lengthOf 	 // packet A { u8 x, }
-  {
-char[ 65535] string_@calculatedFrom(
-"""" ) 	 // a // b
-    ,
-}
-	, len@calculatedFrom(""" ++ [233]%N ++ runes_of_ascii "t" ++ [233]%N ++ runes_of_ascii """ )
-,  @lengthOf(
-
-    As
-) 
-char[
-	1	]
-    BodyLength// " ++ [27880; 37322]%N ++ runes_of_ascii "
-  , }	// a // b
-")).
-Eval vm_compute in ("<<<M1930>>>" ++ full (runes_of_ascii "//	t
-
-packet 
-MetaDataX
-
-{@leftPad(  )
-repeat
-
-    float64 
-asx 
-, } MetaData 
-Foo
-{  // a // b
-	char[
-65535
-	]Pad , }
-    packet body  // 50% %s
-{
-
-    match 
-asx	as
-    charz
-{  // `tick` ""quote"" 'q'
-	  10
-: u8x	,
-
-    ""it's""
-    : 
-leftPad
-
-    , 3
-: metadata 
-        // trailing space 
-    //x
-  	, ""it's""
-    : x, [ 65535 ,  """ ++ [233]%N ++ runes_of_ascii "t" ++ [233]%N ++ runes_of_ascii """
-]
-	:
-    u128  ,
-    10
-
-:	// @lengthOf(
-
-len
-	},repeat
-f32  rootA
-	``
-
-    , // 50% %s
-  @leftPad( 
-
-//
-  ' '
-    )
-
-repeat
-
-    i64  BodyLength // c
-  , repeatCount
-
-    {
-i16  crc
-@lengthOf(	u128
-
-)  ,
-    }
-    ,
-u16  // " ++ [27880; 37322]%N ++ runes_of_ascii "
-	  u  @lengthOf( f32a
-
-    ) 
-`// not a comment` , // trailing space 
-  len
-{
-
-match
-    Logon
-as // @lengthOf(
-      Foo
-	{""" ++ [233]%N ++ runes_of_ascii "t" ++ [233]%N ++ runes_of_ascii """
-	: stringy
-
-    ,
-10 :msg_type ,  //	t
-	[
-""\n""
-,""`tick`""
-,
-""abc""
-
-,""""  ,  007  ,  1 
-,	""a\""b""
-	]  :
-i64_ 	 // packet A { u8 x, }
-
-  ,255  
-  //x
-    : T
-    ,
-
-""{,}"":
-f32a
-    },
-
-string
-
-    tag @lengthOf(Z9_ ), 
-  // a // b
-u32 charz
-    `crlf
-line`	,
-u8x @lengthOf( 	 /// triple
-      rootA
-    )
-,}, float
-	,
-int8  repeatCount
-@lengthOf(f32a
-
-)
-`crlf
-line`
-
-    ,
-    zchar[
-    // packet A { u8 x, }
-      7  // a // b
-	]
-    BodyLength 
-@lengthOf(  string_  // a // b
-
-)	,
-
-    } 
-packet u128  {	x  `// not a comment`,
-}//
-
-packet
-
-x { 
-A`doc`
-
-    ,
-	Packet 
-@calculatedFrom(	// `tick` ""quote"" 'q'
-    ""\" ++ [233]%N ++ runes_of_ascii """
-    )
-
-`say ""hi""` , repeat  string
-asx 
-, @lengthOf(
-
-MetaDataX
-
-)
-	repeat char[4294967296  //
-		] 
-string_	`u8 x,`
-
-,
-@lengthOf( charz ) char[
-
-    0123456789
-	]
-	f32a
-    `say ""hi""`
-,  }
-
-")).
-Eval vm_compute in ("<<<M1961>>>" ++ full (runes_of_ascii "
-
-  // c
-
-MetaData
-
-tag
-
-    { 
-}
-")).
+Eval vm_compute in ("<<<M994>>>" ++ full (runes_of_ascii "// c ")).
